@@ -65,6 +65,96 @@ Proof.
     rewrite app_length, enc_str_length. lia.
 Qed.
 
+(* ---------- zero-width types ---------- *)
+(* a type of minimal width 0 that has a value at all is made of void and of tuples / structs
+   of such types; its values are written as nothing *)
+Lemma zero_width_members : forall {T} (proj : T -> ty) (l : list tval) (ts : list T),
+  Forall (fun v => forall t, has_ty v t = true -> min_width t = 0 -> spec_enc v = []) l ->
+  Forall2 (fun x t => has_ty x (proj t) = true) l ts ->
+  fold_right (fun t a => min_width (proj t) + a) 0 ts = 0 -> flat_map spec_enc l = [].
+Proof.
+  intros T proj l ts IH HF. induction HF as [|x t l' ts' Hx HF' IHF]; intro Hz; [reflexivity|].
+  inversion IH as [|x' l'' Hx' IH']; subst. cbn [fold_right] in Hz. cbn [flat_map].
+  rewrite (Hx' (proj t) Hx) by lia. rewrite (IHF IH') by lia. reflexivity.
+Qed.
+
+Lemma zero_width_enc : forall v t, has_ty v t = true -> min_width t = 0 -> spec_enc v = [].
+Proof.
+  induction v as [w b|b|s|l IH|kvs IH|l IH|t' v IH] using tval_ind2; intros t Hty Hz.
+  - apply has_ty_VNum in Hty as (s & Ht & Hw & Hb). subst t.
+    destruct s; cbn [scalar_width] in Hw; try discriminate; cbn [min_width] in Hz; discriminate.
+  - apply has_ty_VBool in Hty. subst t. cbn [min_width] in Hz. discriminate.
+  - apply has_ty_VStr in Hty as [Ht _]. subst t. cbn [min_width] in Hz. discriminate.
+  - apply has_ty_VList in Hty as (t' & Ht & _ & _). subst t. cbn [min_width] in Hz. discriminate.
+  - apply has_ty_VMap in Hty as (tk & tv & Ht & _ & _). subst t. cbn [min_width] in Hz. discriminate.
+  - apply has_ty_VTup_expand in Hty as [(ts & Ht & HF)|[(n & fs & Ht & HF)|[Ht Hl]]].
+    + subst t. cbn [min_width] in Hz. cbn [spec_enc].
+      exact (zero_width_members (fun t => t) l ts IH HF Hz).
+    + rewrite <- min_width_expand1, Ht in Hz. cbn [min_width] in Hz. cbn [spec_enc].
+      exact (zero_width_members (@snd string ty) l fs IH HF Hz).
+    + subst l. reflexivity.
+  - apply has_ty_VDyn in Hty as (Ht & _). subst t. cbn [min_width] in Hz. discriminate.
+Qed.
+
+(* ... and there is exactly one of them, the zero value of the type *)
+Lemma zero_width_members_val : forall {T} (proj : T -> ty) (l : list tval) (ts : list T),
+  Forall (fun v => forall t, has_ty v t = true -> min_width t = 0 -> v = zero_val t) l ->
+  Forall2 (fun x t => has_ty x (proj t) = true) l ts ->
+  fold_right (fun t a => min_width (proj t) + a) 0 ts = 0 -> l = map (fun t => zero_val (proj t)) ts.
+Proof.
+  intros T proj l ts IH HF. induction HF as [|x t l' ts' Hx HF' IHF]; intro Hz; [reflexivity|].
+  inversion IH as [|x' l'' Hx' IH']; subst. cbn [fold_right] in Hz. cbn [map].
+  rewrite <- (Hx' (proj t) Hx) by lia. rewrite <- (IHF IH') by lia. reflexivity.
+Qed.
+
+Lemma zero_width_val : forall v t, has_ty v t = true -> min_width t = 0 -> v = zero_val t.
+Proof.
+  induction v as [w b|b|s|l IH|kvs IH|l IH|t' v IH] using tval_ind2; intros t Hty Hz.
+  - apply has_ty_VNum in Hty as (s & Ht & Hw & Hb). subst t.
+    destruct s; cbn [scalar_width] in Hw; try discriminate; cbn [min_width] in Hz; discriminate.
+  - apply has_ty_VBool in Hty. subst t. cbn [min_width] in Hz. discriminate.
+  - apply has_ty_VStr in Hty as [Ht _]. subst t. cbn [min_width] in Hz. discriminate.
+  - apply has_ty_VList in Hty as (t' & Ht & _ & _). subst t. cbn [min_width] in Hz. discriminate.
+  - apply has_ty_VMap in Hty as (tk & tv & Ht & _ & _). subst t. cbn [min_width] in Hz. discriminate.
+  - apply has_ty_VTup in Hty as [(ts & Ht & HF)|[(n & fs & Ht & HF)|[[Ht Hl]|[Ht Ho]]]]; subst t.
+    + cbn [min_width] in Hz. cbn [zero_val]. f_equal.
+      exact (zero_width_members_val (fun t => t) l ts IH HF Hz).
+    + cbn [min_width] in Hz. cbn [zero_val]. f_equal.
+      exact (zero_width_members_val (@snd string ty) l fs IH HF Hz).
+    + subst l. reflexivity.
+    + cbn [min_width] in Hz. discriminate.
+  - apply has_ty_VDyn in Hty as (Ht & _). subst t. cbn [min_width] in Hz. discriminate.
+Qed.
+
+(* hence the members of one list (the entries of one map) are all written on at least one
+   byte, or all on none *)
+Lemma uniform_elems : forall t' (l : list tval),
+  Forall (fun x => has_ty x t' = true) l -> uniform (map spec_enc l).
+Proof.
+  intros t' l HF. destruct (Nat.eq_dec (min_width t') 0) as [Hz|Hnz].
+  - right. apply (proj2 (Forall_map spec_enc (fun e => e = []) l)).
+    eapply Forall_impl; [|exact HF]. intros x Hx. exact (zero_width_enc x t' Hx Hz).
+  - left. apply (proj2 (Forall_map spec_enc (fun e => 1 <= List.length e) l)).
+    eapply Forall_impl; [|exact HF]. intros x Hx. cbv beta in *.
+    pose proof (min_width_le_len x t' Hx) as Hm. lia.
+Qed.
+
+Lemma uniform_entries : forall tk tv (kvs : list (tval * tval)),
+  Forall (fun kv => has_ty (fst kv) tk = true /\ has_ty (snd kv) tv = true) kvs ->
+  uniform (map (fun kv => spec_enc (fst kv) ++ spec_enc (snd kv)) kvs).
+Proof.
+  intros tk tv kvs HF. destruct (Nat.eq_dec (min_width tk + min_width tv) 0) as [Hz|Hnz].
+  - right. apply (proj2 (Forall_map (fun kv : tval * tval => spec_enc (fst kv) ++ spec_enc (snd kv))
+                           (fun e => e = []) kvs)).
+    eapply Forall_impl; [|exact HF]. intros kv [Hk Hv]. cbv beta.
+    rewrite (zero_width_enc _ tk Hk) by lia. rewrite (zero_width_enc _ tv Hv) by lia. reflexivity.
+  - left. apply (proj2 (Forall_map (fun kv : tval * tval => spec_enc (fst kv) ++ spec_enc (snd kv))
+                          (fun e => 1 <= List.length e) kvs)).
+    eapply Forall_impl; [|exact HF]. intros kv [Hk Hv]. cbv beta in *.
+    pose proof (min_width_le_len _ tk Hk) as Hm1. pose proof (min_width_le_len _ tv Hv) as Hm2.
+    rewrite app_length. lia.
+Qed.
+
 (* ---------- the guard under which the handlers for "m" and "o" are used ---------- *)
 (* [H] says that the handlers are exact (up to dynamic nesting f); a plain type never
    reaches them. *)
@@ -105,22 +195,20 @@ Qed.
    a Forall2 of the conclusion; [proj] is [fun t => t] for tuples and [snd] for fields *)
 Lemma members_from_IH : forall {T} (proj : T -> ty) (Q : tval -> ty -> Prop) (H : Prop) (f : nat)
     (l : list tval) (ts : list T),
-  Forall (fun v => forall t, wfz t = true -> has_ty v t = true -> guard H f t v -> Q v t) l ->
+  Forall (fun v => forall t, has_ty v t = true -> guard H f t v -> Q v t) l ->
   Forall2 (fun x t => has_ty x (proj t) = true) l ts ->
-  forallb (fun t => wfz (proj t)) ts = true ->
   (forallb (fun t => plain (proj t)) ts = true \/
    (H /\ fold_right (fun y a => Nat.max (dyn_depth y) a) 0 l <= f)) ->
   Forall2 (fun x t => Q x (proj t)) l ts.
 Proof.
-  intros T proj Q H f l ts IH HF. induction HF as [|x t l' ts' Hx HF' IHF]; intros Hw Hg; [constructor|].
+  intros T proj Q H f l ts IH HF. induction HF as [|x t l' ts' Hx HF' IHF]; intros Hg; [constructor|].
   inversion IH as [|x' l'' Hx' IH']; subst.
-  cbn [forallb] in Hw. apply andb_true_iff in Hw as [Hw1 Hw2].
   constructor.
-  - apply Hx'; [exact Hw1|exact Hx|].
+  - apply Hx'; [exact Hx|].
     destruct Hg as [Hp|[HH Hd]].
     + left. cbn [forallb] in Hp. now apply andb_true_iff in Hp as [Hp _].
     + right. split; [exact HH|]. cbn [fold_right] in Hd. lia.
-  - apply IHF; [exact IH'|exact Hw2|].
+  - apply IHF; [exact IH'|].
     destruct Hg as [Hp|[HH Hd]].
     + left. cbn [forallb] in Hp. now apply andb_true_iff in Hp as [_ Hp].
     + right. split; [exact HH|]. cbn [fold_right] in Hd. lia.
@@ -150,10 +238,10 @@ Section SpecBodyExact.
     (forall v, has_ty v ty_ObjectReference = true -> exact obj v (spec_enc v)).
 
   Lemma spec_body_exact : forall v t,
-    wfz t = true -> has_ty v t = true -> guard spec_handlers_ok f t v ->
+    has_ty v t = true -> guard spec_handlers_ok f t v ->
     exact (spec_body dyn obj t) v (spec_enc v).
   Proof.
-    induction v as [w b|b|s|l IH|kvs IH|l IH|t' v IH] using tval_ind2; intros t Hwz Hty Hg.
+    induction v as [w b|b|s|l IH|kvs IH|l IH|t' v IH] using tval_ind2; intros t Hty Hg.
     - apply has_ty_VNum in Hty as (s & Ht & Hw & Hb). subst t. intro rest.
       destruct s; cbn [scalar_width] in Hw; try discriminate; injection Hw as Hw; subst w;
         cbn [spec_body scalar_width spec_enc]; rewrite (read_num_le _ _ _ Hb); reflexivity.
@@ -161,36 +249,32 @@ Section SpecBodyExact.
     - apply has_ty_VStr in Hty as [Ht Hs]. subst t. intro rest. cbn [spec_body spec_enc].
       rewrite (read_str_enc _ _ Hs). reflexivity.
     - apply has_ty_VList in Hty as (t' & Ht & Hn & HF). subst t. intro rest.
-      cbn [wfz] in Hwz. apply andb_true_iff in Hwz as [Hmw Hwz']. apply Nat.leb_le in Hmw.
       cbn [spec_body spec_enc]. rewrite <- app_assoc, (read_u32_enc _ _ (lt31_lt32 _ Hn)). cbn [bind].
-      rewrite (rep_exact spec_enc (spec_body dyn obj t') l _ eq_refl); [reflexivity|].
-      apply Forall_forall. intros x Hin. rewrite Forall_forall in IH, HF. split.
-      + apply IH; [exact Hin|exact Hwz'|exact (HF x Hin)|exact (guard_list _ _ _ _ _ Hg Hin)].
-      + pose proof (min_width_le_len x t' (HF x Hin)) as Hm. lia.
+      rewrite (rep_exact spec_enc (spec_body dyn obj t') l _ eq_refl);
+        [reflexivity| |exact (uniform_elems t' l HF)].
+      apply Forall_forall. intros x Hin. rewrite Forall_forall in IH, HF.
+      apply IH; [exact Hin|exact (HF x Hin)|exact (guard_list _ _ _ _ _ Hg Hin)].
     - apply has_ty_VMap in Hty as (tk & tv & Ht & Hn & HF). subst t. intro rest.
-      cbn [wfz] in Hwz. apply andb_true_iff in Hwz as [Hwz Hwv]. apply andb_true_iff in Hwz as [Hmw Hwk].
-      apply Nat.leb_le in Hmw.
       cbn [spec_body spec_enc]. rewrite <- app_assoc, (read_u32_enc _ _ (lt31_lt32 _ Hn)). cbn [bind].
       rewrite (rep_exact (fun kv => spec_enc (fst kv) ++ spec_enc (snd kv))
-                 (pair_with (spec_body dyn obj tk) (spec_body dyn obj tv)) kvs _ eq_refl); [reflexivity|].
+                 (pair_with (spec_body dyn obj tk) (spec_body dyn obj tv)) kvs _ eq_refl);
+        [reflexivity| |exact (uniform_entries tk tv kvs HF)].
       apply Forall_forall. intros kv Hin. rewrite Forall_forall in IH, HF.
       destruct (IH kv Hin) as [IHk IHv]. destruct (HF kv Hin) as [Hk Hv].
-      destruct (guard_map _ _ _ _ _ _ Hg Hin) as [Hgk Hgv]. split.
-      + destruct kv as [k v]. cbn [fst snd] in *. apply pair_with_exact; [apply IHk|apply IHv]; assumption.
-      + pose proof (min_width_le_len _ _ Hk) as Hm1. pose proof (min_width_le_len _ _ Hv) as Hm2.
-        rewrite app_length. lia.
+      destruct (guard_map _ _ _ _ _ _ Hg Hin) as [Hgk Hgv].
+      destruct kv as [k v]. cbn [fst snd] in *. apply pair_with_exact; [apply IHk|apply IHv]; assumption.
     - apply has_ty_VTup in Hty as [(ts & Ht & HF)|[(n & fs & Ht & HF)|[[Ht Hl]|[Ht Ho]]]]; subst t.
-      + intro rest. cbn [spec_body spec_enc]. cbn [wfz] in Hwz.
+      + intro rest. cbn [spec_body spec_enc].
         rewrite (seq_with_exact spec_enc (map (spec_body dyn obj) ts) l); [reflexivity|].
         apply (parsers_of_members (spec_body dyn obj) (fun v => v)).
         apply (members_from_IH (fun t => t) (fun v t => exact (spec_body dyn obj t) v (spec_enc v))
-                 spec_handlers_ok f l ts IH HF Hwz).
+                 spec_handlers_ok f l ts IH HF).
         destruct Hg as [Hp|[HH Hd]]; [left; exact Hp|right; split; [exact HH|exact Hd]].
-      + intro rest. cbn [spec_body spec_enc]. cbn [wfz] in Hwz.
+      + intro rest. cbn [spec_body spec_enc].
         rewrite (seq_with_exact spec_enc (map (fun fd => spec_body dyn obj (snd fd)) fs) l); [reflexivity|].
         apply (parsers_of_members (fun fd => spec_body dyn obj (snd fd)) (fun v => v)).
         apply (members_from_IH (@snd string ty) (fun v t => exact (spec_body dyn obj t) v (spec_enc v))
-                 spec_handlers_ok f l fs IH HF Hwz).
+                 spec_handlers_ok f l fs IH HF).
         destruct Hg as [Hp|[HH Hd]]; [left; exact Hp|right; split; [exact HH|exact Hd]].
       + subst l. intro rest. reflexivity.
       + destruct Hg as [Hp|[[_ Hobj] _]]; [cbn in Hp; discriminate|].
@@ -224,33 +308,33 @@ Section P.
   Lemma spec_obj_exact : forall v, has_ty v ty_ObjectReference = true -> exact spec_obj v (spec_enc v).
   Proof.
     intros v Hty. unfold spec_obj.
-    apply (spec_body_exact no_dyn no_dyn 0 v ty_ObjectReference wfz_ObjectReference Hty).
+    apply (spec_body_exact no_dyn no_dyn 0 v ty_ObjectReference Hty).
     left. exact plain_ObjectReference.
   Qed.
 
   Lemma spec_dec_exact : forall fuel v t,
-    wfz t = true -> has_ty v t = true -> dyn_depth v <= fuel ->
+    has_ty v t = true -> dyn_depth v <= fuel ->
     exact (spec_dec parse fuel t) v (spec_enc v).
   Proof.
-    induction fuel as [|f IH]; intros v t Hwz Hty Hd; rewrite spec_dec_unfold.
-    - apply (spec_body_exact _ _ 0 v t Hwz Hty). right. split; [|exact Hd]. split.
+    induction fuel as [|f IH]; intros v t Hty Hd; rewrite spec_dec_unfold.
+    - apply (spec_body_exact _ _ 0 v t Hty). right. split; [|exact Hd]. split.
       + intros t' v' _ Hd'. cbn [dyn_depth] in Hd'. lia.
       + exact spec_obj_exact.
-    - apply (spec_body_exact _ _ (S f) v t Hwz Hty). right. split; [|exact Hd]. split.
+    - apply (spec_body_exact _ _ (S f) v t Hty). right. split; [|exact Hd]. split.
       + intros t' v' Hty' Hd' rest. cbn [dyn_depth] in Hd'.
         apply has_ty_VDyn in Hty' as (_ & Hg & Hlen & Hv).
         cbn [spec_dyn spec_enc]. rewrite <- app_assoc.
         rewrite read_str_enc by (rewrite length_bytes_of_string; exact Hlen). cbn [bind].
-        rewrite string_of_bytes_of_string, (parse_print t' (good_ty_wf t' Hg)).
-        rewrite (IH v' t' (good_ty_wfz t' Hg) Hv (le_S_n _ _ Hd') rest). reflexivity.
+        rewrite string_of_bytes_of_string, (parse_print t' Hg).
+        rewrite (IH v' t' Hv (le_S_n _ _ Hd') rest). reflexivity.
       + exact spec_obj_exact.
   Qed.
 
   Theorem spec_dec_enc : forall v t fuel rest,
-    good_ty t = true -> has_ty v t = true -> dyn_depth v <= fuel ->
+    wf_ty t = true -> has_ty v t = true -> dyn_depth v <= fuel ->
     spec_dec parse fuel t (spec_enc v ++ rest) = ROk (v, rest).
   Proof.
-    intros v t fuel rest Hg Hty Hd. exact (spec_dec_exact fuel v t (good_ty_wfz t Hg) Hty Hd rest).
+    intros v t fuel rest Hg Hty Hd. exact (spec_dec_exact fuel v t Hty Hd rest).
   Qed.
 
   (* ---------- sig_body with abstract handlers: returns the bytes of the value ---------- *)
@@ -272,10 +356,10 @@ Section P.
       (forall v, has_ty v ty_ObjectReference = true -> exact obj (spec_enc v) (spec_enc v)).
 
     Lemma sig_body_exact : forall v t,
-      wfz t = true -> has_ty v t = true -> guard sig_handlers_ok f t v ->
+      has_ty v t = true -> guard sig_handlers_ok f t v ->
       exact (sig_body c dyn obj t) (spec_enc v) (spec_enc v).
     Proof.
-      induction v as [w b|b|s|l IH|kvs IH|l IH|t' v IH] using tval_ind2; intros t Hwz Hty Hg.
+      induction v as [w b|b|s|l IH|kvs IH|l IH|t' v IH] using tval_ind2; intros t Hty Hg.
       - apply has_ty_VNum in Hty as (s & Ht & Hw & Hb). subst t. intro rest.
         destruct s; cbn [scalar_width] in Hw; try discriminate; injection Hw as Hw; subst w;
           cbn [sig_body scalar_width spec_enc]; apply take_n_app_len; apply le_length.
@@ -283,41 +367,37 @@ Section P.
       - apply has_ty_VStr in Hty as [Ht Hs]. subst t. intro rest. cbn [sig_body spec_enc].
         apply string_reader_enc. exact Hs.
       - apply has_ty_VList in Hty as (t' & Ht & Hn & HF). subst t. intro rest.
-        cbn [wfz] in Hwz. apply andb_true_iff in Hwz as [Hmw Hwz']. apply Nat.leb_le in Hmw.
         cbn [sig_body spec_enc]. rewrite <- app_assoc, (read_u32_enc _ _ (lt31_lt32 _ Hn)). cbn [bind].
         rewrite (rep_exact_gen spec_enc spec_enc (sig_body c dyn obj t') l _ eq_refl).
         + unfold cat_res. cbn [bind]. now rewrite concat_map_flat_map.
-        + apply Forall_forall. intros x Hin. rewrite Forall_forall in IH, HF. split.
-          * apply IH; [exact Hin|exact Hwz'|exact (HF x Hin)|exact (guard_list _ _ _ _ _ Hg Hin)].
-          * pose proof (min_width_le_len x t' (HF x Hin)) as Hm. lia.
+        + apply Forall_forall. intros x Hin. rewrite Forall_forall in IH, HF.
+          apply IH; [exact Hin|exact (HF x Hin)|exact (guard_list _ _ _ _ _ Hg Hin)].
+        + exact (uniform_elems t' l HF).
       - apply has_ty_VMap in Hty as (tk & tv & Ht & Hn & HF). subst t. intro rest.
-        cbn [wfz] in Hwz. apply andb_true_iff in Hwz as [Hwz Hwv]. apply andb_true_iff in Hwz as [Hmw Hwk].
-        apply Nat.leb_le in Hmw.
         cbn [sig_body spec_enc]. rewrite <- app_assoc, (read_u32_enc _ _ (lt31_lt32 _ Hn)). cbn [bind].
         rewrite (rep_exact_gen (fun kv : tval * tval => spec_enc (fst kv) ++ spec_enc (snd kv))
                    (fun kv => spec_enc (fst kv) ++ spec_enc (snd kv)) _ kvs _ eq_refl).
         + unfold cat_res. cbn [bind]. now rewrite <- flat_map_concat_map.
         + apply Forall_forall. intros kv Hin. rewrite Forall_forall in IH, HF.
           destruct (IH kv Hin) as [IHk IHv]. destruct (HF kv Hin) as [Hk Hv].
-          destruct (guard_map _ _ _ _ _ _ Hg Hin) as [Hgk Hgv]. split.
-          * intro rest'.
-            rewrite (pair_with_exact _ _ _ _ _ _ (IHk tk Hwk Hk Hgk) (IHv tv Hwv Hv Hgv) rest'). reflexivity.
-          * pose proof (min_width_le_len _ _ Hk) as Hm1. pose proof (min_width_le_len _ _ Hv) as Hm2.
-            rewrite app_length. lia.
+          destruct (guard_map _ _ _ _ _ _ Hg Hin) as [Hgk Hgv].
+          intro rest'.
+          rewrite (pair_with_exact _ _ _ _ _ _ (IHk tk Hk Hgk) (IHv tv Hv Hgv) rest'). reflexivity.
+        + exact (uniform_entries tk tv kvs HF).
       - apply has_ty_VTup in Hty as [(ts & Ht & HF)|[(n & fs & Ht & HF)|[[Ht Hl]|[Ht Ho]]]]; subst t.
-        + intro rest. cbn [sig_body spec_enc]. cbn [wfz] in Hwz.
+        + intro rest. cbn [sig_body spec_enc].
           rewrite (seq_with_exact_gen spec_enc spec_enc (map (sig_body c dyn obj) ts) l).
           * unfold cat_res. cbn [bind]. now rewrite concat_map_flat_map.
           * apply (parsers_of_members (sig_body c dyn obj) spec_enc).
             apply (members_from_IH (fun t => t) (fun v t => exact (sig_body c dyn obj t) (spec_enc v) (spec_enc v))
-                     sig_handlers_ok f l ts IH HF Hwz).
+                     sig_handlers_ok f l ts IH HF).
             destruct Hg as [Hp|[HH Hd]]; [left; exact Hp|right; split; [exact HH|exact Hd]].
-        + intro rest. cbn [sig_body spec_enc]. cbn [wfz] in Hwz.
+        + intro rest. cbn [sig_body spec_enc].
           rewrite (seq_with_exact_gen spec_enc spec_enc (map (fun fd => sig_body c dyn obj (snd fd)) fs) l).
           * unfold cat_res. cbn [bind]. now rewrite concat_map_flat_map.
           * apply (parsers_of_members (fun fd => sig_body c dyn obj (snd fd)) spec_enc).
             apply (members_from_IH (@snd string ty) (fun v t => exact (sig_body c dyn obj t) (spec_enc v) (spec_enc v))
-                     sig_handlers_ok f l fs IH HF Hwz).
+                     sig_handlers_ok f l fs IH HF).
             destruct Hg as [Hp|[HH Hd]]; [left; exact Hp|right; split; [exact HH|exact Hd]].
         + subst l. intro rest. reflexivity.
         + destruct Hg as [Hp|[[_ Hobj] _]]; [cbn in Hp; discriminate|].
@@ -349,38 +429,38 @@ Section P.
     has_ty v ty_ObjectReference = true -> exact (sig_obj c) (spec_enc v) (spec_enc v).
   Proof.
     intros v Hty. unfold sig_obj.
-    apply (sig_body_exact no_dyn no_dyn 0 v ty_ObjectReference wfz_ObjectReference Hty).
+    apply (sig_body_exact no_dyn no_dyn 0 v ty_ObjectReference Hty).
     left. exact plain_ObjectReference.
   Qed.
 
   Lemma sig_read_exact : forall fuel v t,
     value_reader_no_len c = false ->
-    wfz t = true -> has_ty v t = true -> dyn_depth v <= fuel ->
+    has_ty v t = true -> dyn_depth v <= fuel ->
     exact (sig_read parse c fuel t) (spec_enc v) (spec_enc v).
   Proof.
     intros fuel v t Hc. revert v t.
-    induction fuel as [|f IH]; intros v t Hwz Hty Hd; rewrite sig_read_unfold.
-    - apply (sig_body_exact _ _ 0 v t Hwz Hty). right. split; [|exact Hd]. split.
+    induction fuel as [|f IH]; intros v t Hty Hd; rewrite sig_read_unfold.
+    - apply (sig_body_exact _ _ 0 v t Hty). right. split; [|exact Hd]. split.
       + intros t' v' _ Hd'. cbn [dyn_depth] in Hd'. lia.
       + exact sig_obj_exact.
-    - apply (sig_body_exact _ _ (S f) v t Hwz Hty). right. split; [|exact Hd]. split.
+    - apply (sig_body_exact _ _ (S f) v t Hty). right. split; [|exact Hd]. split.
       + intros t' v' Hty' Hd' rest. cbn [dyn_depth] in Hd'.
         apply has_ty_VDyn in Hty' as (_ & Hg & Hlen & Hv).
         cbn [sig_dyn spec_enc]. rewrite <- app_assoc.
         rewrite read_str_enc by (rewrite length_bytes_of_string; exact Hlen). cbn [bind].
-        rewrite string_of_bytes_of_string, (parse_print t' (good_ty_wf t' Hg)).
-        rewrite (IH v' t' (good_ty_wfz t' Hg) Hv (le_S_n _ _ Hd') rest). cbn [bind].
+        rewrite string_of_bytes_of_string, (parse_print t' Hg).
+        rewrite (IH v' t' Hv (le_S_n _ _ Hd') rest). cbn [bind].
         rewrite Hc. reflexivity.
       + exact sig_obj_exact.
   Qed.
 
   Theorem sig_read_spec : forall v t fuel rest,
     value_reader_no_len c = false ->
-    good_ty t = true -> has_ty v t = true -> dyn_depth v <= fuel ->
+    wf_ty t = true -> has_ty v t = true -> dyn_depth v <= fuel ->
     sig_read parse c fuel t (spec_enc v ++ rest) = ROk (spec_enc v, rest).
   Proof.
     intros v t fuel rest Hc Hg Hty Hd.
-    exact (sig_read_exact fuel v t Hc (good_ty_wfz t Hg) Hty Hd rest).
+    exact (sig_read_exact fuel v t Hc Hty Hd rest).
   Qed.
 End P.
 
